@@ -64,22 +64,25 @@ structure Cfg where
   fnBody : FnBody
   /-- `for x; { …; }`. -/
   forBrace : Bool
+  /-- a closing reserved word is recognised directly after the redirections of a compound command
+      (`{ { a; } >f }`); the real shells are no longer at command position there. -/
+  closerAfterRedir : Bool
   deriving DecidableEq, Repr
 
 /-- syntax/parser.go as it is. -/
 def goCfg : Lang → Cfg
   | .bash  => { posix := false, elseInCmd := true, rsrvAfterIO := true, bangAlone := false,
-                forAssign := true, fnBody := .andOr, forBrace := true }
+                forAssign := true, fnBody := .andOr, forBrace := true, closerAfterRedir := true }
   | .posix => { posix := true, elseInCmd := true, rsrvAfterIO := true, bangAlone := false,
-                forAssign := true, fnBody := .andOr, forBrace := false }
+                forAssign := true, fnBody := .andOr, forBrace := false, closerAfterRedir := true }
 
 /-- The real shells: bash 5.2 for `Lang.bash`, dash for `Lang.posix` (validated by `bash -n` /
     `dash -n` on every run of the check). -/
 def shCfg : Lang → Cfg
   | .bash  => { posix := false, elseInCmd := false, rsrvAfterIO := false, bangAlone := true,
-                forAssign := true, fnBody := .compound, forBrace := true }
+                forAssign := true, fnBody := .compound, forBrace := true, closerAfterRedir := false }
   | .posix => { posix := true, elseInCmd := false, rsrvAfterIO := false, bangAlone := false,
-                forAssign := false, fnBody := .command, forBrace := false }
+                forAssign := false, fnBody := .command, forBrace := false, closerAfterRedir := false }
 
 /-! ### token classes -/
 
@@ -102,6 +105,12 @@ def callStop : Tok → Bool
 
 /-- `stopToken`, end of input aside. -/
 def stopTok (t : Tok) : Bool := callStop t || t == rparen
+
+/-- What may follow when the shell is not at command position: end of input, a command terminator
+    or `)`. -/
+def followsOpen : Option Tok → Bool
+  | none => true
+  | some t => callStop t || t == rparen
 
 /-- `p.got(_Newl)`: the lexer merges consecutive newlines into one `_Newl` token. -/
 def skipNL : List Tok → List Tok
@@ -293,7 +302,10 @@ def pipeline (c : Cfg) (q : Q) (neg binCmd : Bool) : Nat → List Tok → R (Lis
       ((command c q neg pre f ts1).bind fun r =>
         match redirs r with
         | none => .err
-        | some (_, r') => .ok r').bind (pipeTail c q binCmd f)
+        | some (post, r') =>
+          -- only a compound command leaves redirections to read here
+          if post && !c.closerAfterRedir && !followsOpen r'.head? then .err else .ok r').bind
+        (pipeTail c q binCmd f)
 
 /-- The `|` loop of `gotStmtPipe`. -/
 def pipeTail (c : Cfg) (q : Q) (binCmd : Bool) : Nat → List Tok → R (List Tok)
@@ -586,7 +598,8 @@ inductive Derives (c : Cfg) : NT → End → List Tok → Prop
       Derives c (.command q neg) .open (pre ++ t :: its)
   | c_redir {q neg w r} : wordLike w = true → Redirs r → Derives c (.command q neg) .open (io :: w :: r)
   | c_compound {q neg body post} : Derives c (.compound q) .closed body → Redirs post →
-      Derives c (.command q neg) .closed (body ++ post)
+      Derives c (.command q neg) (if post.isEmpty || c.closerAfterRedir then .closed else .open)
+        (body ++ post)
   | f_andor {q neg nm k e body} : c.fnBody = .andOr → fnNameOK c neg nm = true →
       Derives c (.stmt q) e body → Derives c (.command q neg) e.seal (nm :: lparen :: rparen :: nls k ++ body)
   | f_command {q neg nm k e body} : c.fnBody = .command → fnNameOK c neg nm = true →
